@@ -82,7 +82,7 @@ fn stale_state(state: &HashMap<String, String>) -> HashMap<String, String> {
     keys.iter()
         .enumerate()
         .map(|(i, k)| {
-            let dir = liwe::model::Key::from_file_name(k).parent();
+            let dir = crate::oracle::md::dir_of(k);
             let mut pre = String::new();
             for t in [keys[(i + 1) % keys.len()].as_str(), "stale-missing"] {
                 let url = crate::oracle::md::rel_url(t, &dir);
@@ -170,7 +170,7 @@ pub fn changes_of_edit(edit: &WorkspaceEdit) -> Vec<Change> {
 /// finding D25: "Inline section" on a reference from a note to itself recurses forever in
 /// `Tree::append_pre_header` and overflows the stack (an abort, not a panic): never resolved in-process
 pub fn is_self_reference(lib: &Lib, key: &str, line: u32) -> bool {
-    let dir = liwe::model::Key::from_file_name(key).parent();
+    let dir = crate::oracle::md::dir_of(key);
     lib.get(key)
         .map(|t| crate::oracle::md::read(t, &dir).links.iter().any(|l| l.block_level && l.line == line as usize && crate::oracle::md::resolve(&l.dest, &dir) == key))
         .unwrap_or(false)
